@@ -259,6 +259,17 @@ def gen_mixed_frames(rng, lnk, n, cfg, counters, style=None, variant_fault=False
     return frames
 
 
+def giant_run_frames(rng, counters):
+    """> 65535 back-to-back tiny frames of one kind (one frame dict with `repeat`) and a tail frame of another protocol."""
+    kind, data, count, style, tkind, tdata = device.giant_run(rng)
+    counters.hit("giant_run_wires")
+    counters.hit("giant_run:" + style)
+    return [
+        {"kind": "garbage", "hex": data.hex(), "faults": [], "repeat": count, "note": f"giant run: {count} x {style}"},
+        {"kind": tkind, "hex": tdata.hex(), "faults": [], "note": "tail frame"},
+    ], style
+
+
 def long_run_frames(rng, counters):
     """>= 1100 tiny frames of one or two kinds (or noise) as scenario frame dicts, plus the style name."""
     run, style = device.long_run(rng)
